@@ -172,8 +172,14 @@ fn gen_val(rng: &mut Lcg, t: &FT, types: &[TypeDef], beyond53: &mut bool) -> Val
                     *lo + ((rng.next() as u128 * 0x9E3779B97F4A7C15u128 ^ rng.next() as u128) % span) as i128
                 }
             };
-            // exactly representable in f64?
-            if (v as f64) as i128 != v || v.unsigned_abs() > (1u128 << 63) {
+            // does the value survive `v as f64 as T` (Rust's saturating float-to-int cast)? only values that do not are
+            // covered by the known finding; u64::MAX, for instance, does survive (2^64 saturates back to u64::MAX)
+            let back = {
+                let f = v as f64;
+                let i = if f >= 1.7e38 { i128::MAX } else if f <= -1.7e38 { i128::MIN } else { f as i128 };
+                i.clamp(*lo, *hi)
+            };
+            if back != v {
                 *beyond53 = true;
             }
             Val::Int(v, n)
